@@ -907,9 +907,26 @@ static void cascade_run(uint64_t idx, vh_rng_t * rng) {
         /* a group whose condition register feeds its event register through positive / negative transition filter registers */
         , USER_REG_QUES_CURRC, USER_REG_QUES_CURRC, USER_REG_QUES_CURRP, USER_REG_QUES_CURRN, USER_REG_QUES_CURR, USER_REG_QUES_CURRE
 #endif
+#ifdef VH_CUSTREG_CHAIN
+        /* a user group BELOW a user group: its condition register is four hops away from the status byte (condition -> event -> QUES:VOLT
+         * condition -> event -> QUES condition -> event -> status byte) */
+        , USER_REG_QUES_VOLT_CHC, USER_REG_QUES_VOLT_CHC, USER_REG_QUES_VOLT_CH, USER_REG_QUES_VOLT_CHE
+#endif
+#ifdef VH_CUSTREG_CHAIN3
+        , USER_REG_QUES_VOLT_CH_SEGC, USER_REG_QUES_VOLT_CH_SEGC, USER_REG_QUES_VOLT_CH_SEG, USER_REG_QUES_VOLT_CH_SEGE
+#endif
     };
-    static const char * const wname[] = { "QUES:VOLT", "QUES:VOLT:ENAB", "QUES:VOLT:COND", "OPER:SUB", "OPER:SUB:ENAB", "QUESE", "OPERE", "SRE", "QUES", "OPER", "ESE",
-        "QUES:CURR:COND", "QUES:CURR:COND", "QUES:CURR:PTR", "QUES:CURR:NTR", "QUES:CURR", "QUES:CURR:ENAB" };
+    static const char * const wname[] = { "QUES:VOLT", "QUES:VOLT:ENAB", "QUES:VOLT:COND", "OPER:SUB", "OPER:SUB:ENAB", "QUESE", "OPERE", "SRE", "QUES", "OPER", "ESE"
+#ifdef VH_CUSTREG_FILTERS
+        , "QUES:CURR:COND", "QUES:CURR:COND", "QUES:CURR:PTR", "QUES:CURR:NTR", "QUES:CURR", "QUES:CURR:ENAB"
+#endif
+#ifdef VH_CUSTREG_CHAIN
+        , "QUES:VOLT:CH:COND", "QUES:VOLT:CH:COND", "QUES:VOLT:CH", "QUES:VOLT:CH:ENAB"
+#endif
+#ifdef VH_CUSTREG_CHAIN3
+        , "QUES:VOLT:CH:SEG:COND", "QUES:VOLT:CH:SEG:COND", "QUES:VOLT:CH:SEG", "QUES:VOLT:CH:SEG:ENAB"
+#endif
+    };
     vh_ctx_t * v = (g_no_error_cb = (idx % 4 == 1), g_srq_handler_acts = 0, new_ctx(2)); scpi_t * c = v->ctx; int step; vh_buf_t hist = { 0, 0, 0 };
     (void) idx;
     for (step = 0; step < 120; step++) {
@@ -920,6 +937,22 @@ static void cascade_run(uint64_t idx, vh_rng_t * rng) {
         scpi_reg_val_t b_quesc = SCPI_RegGet(c, SCPI_REG_QUESC), b_operc = SCPI_RegGet(c, SCPI_REG_OPERC), b_voltc = SCPI_RegGet(c, USER_REG_QUES_VOLTC), b_stb = SCPI_RegGet(c, SCPI_REG_STB);
         scpi_reg_val_t a_quesc, a_operc, a_voltc, stb, sre;
         if (vh_chance(rng, 1, 4)) val = 0;
+#ifdef VH_CUSTREG_CHAIN
+        /* every second history opens the whole path from the second-level group to the status byte (all enables set), so that a write to the
+         * deepest condition register travels all the way */
+        if ((idx & 1) && step < 3) { static const scpi_reg_name_t open_path[3] = { USER_REG_QUES_VOLT_CHE, USER_REG_QUES_VOLTE, SCPI_REG_QUESE }; int j2; for (j2 = 0; j2 < (int) (sizeof writable / sizeof writable[0]); j2++) if (writable[j2] == open_path[step]) k = j2; val = 0xffff; }
+        if ((idx & 1) && step >= 3 && step % 8 == 3) { int j2; for (j2 = 0; j2 < (int) (sizeof writable / sizeof writable[0]); j2++) if (writable[j2] == USER_REG_QUES_VOLT_CHC) k = j2; }
+#ifdef VH_CUSTREG_CHAIN3
+        if ((idx & 1) && step == 3) { int j2; for (j2 = 0; j2 < (int) (sizeof writable / sizeof writable[0]); j2++) if (writable[j2] == USER_REG_QUES_VOLT_CH_SEGE) k = j2; val = 0xffff; }
+        if ((idx & 1) && step > 3 && step % 8 == 5) { int j2; for (j2 = 0; j2 < (int) (sizeof writable / sizeof writable[0]); j2++) if (writable[j2] == USER_REG_QUES_VOLT_CH_SEGC) k = j2; }
+        /* bit 3 of the QUES:VOLT:CH condition register is the summary of the group below it */
+        if (writable[k] == USER_REG_QUES_VOLT_CHC) val = (scpi_reg_val_t) ((val & ~0x0008) | (SCPI_RegGet(c, USER_REG_QUES_VOLT_CHC) & 0x0008));
+#endif
+        /* bit 2 of the QUES:VOLT condition register is the summary of the group below it: the library's, not the application's, to write */
+        if (writable[k] == USER_REG_QUES_VOLTC) val = (scpi_reg_val_t) ((val & ~0x0004) | (SCPI_RegGet(c, USER_REG_QUES_VOLTC) & 0x0004));
+        if (vh_chance(rng, 1, 3)) val |= 0x0004;
+        if (writable[k] == USER_REG_QUES_VOLTC) val = (scpi_reg_val_t) ((val & ~0x0004) | (SCPI_RegGet(c, USER_REG_QUES_VOLTC) & 0x0004));
+#endif
         srq.n = 0;
         vh_buf_printf(&hist, "%s:=0x%04x ", wname[k], val);
         if (hist.len > 600) { memmove(hist.p, hist.p + 300, hist.len - 300); hist.len -= 300; }
@@ -932,6 +965,14 @@ static void cascade_run(uint64_t idx, vh_rng_t * rng) {
         if (((a_quesc & 0x0001) != 0) != ((SCPI_RegGet(c, USER_REG_QUES_VOLT) & SCPI_RegGet(c, USER_REG_QUES_VOLTE)) != 0)) { vh_violation(PROP ":cascade-user-group-summary", "after %s: QUES:COND=0x%04x but QUES:VOLT=0x%04x QUES:VOLT:ENAB=0x%04x (summary bit 0x0001)", vh_buf_cstr(&hist), a_quesc, SCPI_RegGet(c, USER_REG_QUES_VOLT), SCPI_RegGet(c, USER_REG_QUES_VOLTE)); break; }
         if (((a_operc & 0x0200) != 0) != ((SCPI_RegGet(c, USER_REG_OPER_SUB) & SCPI_RegGet(c, USER_REG_OPER_SUBE)) != 0)) { vh_violation(PROP ":cascade-user-group-summary", "after %s: OPER:COND=0x%04x but OPER:SUB=0x%04x OPER:SUB:ENAB=0x%04x (summary bit 0x0200)", vh_buf_cstr(&hist), a_operc, SCPI_RegGet(c, USER_REG_OPER_SUB), SCPI_RegGet(c, USER_REG_OPER_SUBE)); break; }
         if (a_operc & 0x0200) vh_count("cascade.user_group_summarised_in_a_parent_bit_above_7", 1);
+#ifdef VH_CUSTREG_CHAIN
+        if (((a_voltc & 0x0004) != 0) != ((SCPI_RegGet(c, USER_REG_QUES_VOLT_CH) & SCPI_RegGet(c, USER_REG_QUES_VOLT_CHE)) != 0)) { vh_violation(PROP ":cascade-user-group-summary:second-level", "after %s: QUES:VOLT:COND=0x%04x but QUES:VOLT:CH=0x%04x QUES:VOLT:CH:ENAB=0x%04x (summary bit 0x0004)", vh_buf_cstr(&hist), a_voltc, SCPI_RegGet(c, USER_REG_QUES_VOLT_CH), SCPI_RegGet(c, USER_REG_QUES_VOLT_CHE)); break; }
+        if (writable[k] == USER_REG_QUES_VOLT_CHC && ((stb ^ b_stb) & 0x08)) vh_count("cascade.second_level_condition_write_changed_the_status_byte", 1);
+#endif
+#ifdef VH_CUSTREG_CHAIN3
+        if (((SCPI_RegGet(c, USER_REG_QUES_VOLT_CHC) & 0x0008) != 0) != ((SCPI_RegGet(c, USER_REG_QUES_VOLT_CH_SEG) & SCPI_RegGet(c, USER_REG_QUES_VOLT_CH_SEGE)) != 0)) { vh_violation(PROP ":cascade-user-group-summary:third-level", "after %s: QUES:VOLT:CH:COND=0x%04x but QUES:VOLT:CH:SEG=0x%04x ENAB=0x%04x (summary bit 0x0008)", vh_buf_cstr(&hist), SCPI_RegGet(c, USER_REG_QUES_VOLT_CHC), SCPI_RegGet(c, USER_REG_QUES_VOLT_CH_SEG), SCPI_RegGet(c, USER_REG_QUES_VOLT_CH_SEGE)); break; }
+        if (writable[k] == USER_REG_QUES_VOLT_CH_SEGC && ((stb ^ b_stb) & 0x08)) vh_count("cascade.third_level_condition_write_changed_the_status_byte", 1);
+#endif
 #ifdef VH_CUSTREG_FILTERS
         if (((a_quesc & 0x0002) != 0) != ((SCPI_RegGet(c, USER_REG_QUES_CURR) & SCPI_RegGet(c, USER_REG_QUES_CURRE)) != 0)) { vh_violation(PROP ":cascade-user-group-summary", "after %s: QUES:COND=0x%04x but QUES:CURR=0x%04x QUES:CURR:ENAB=0x%04x (summary bit 0x0002, group with transition filters)", vh_buf_cstr(&hist), a_quesc, SCPI_RegGet(c, USER_REG_QUES_CURR), SCPI_RegGet(c, USER_REG_QUES_CURRE)); break; }
 #if MON12
@@ -1002,6 +1043,12 @@ int main(int argc, char ** argv) {
 #endif
     #if USE_CUSTOM_REGISTERS
     vh_require("cascade.steps"); vh_require("cascade.user_group_summarised_in_a_parent_bit_above_7");
+#ifdef VH_CUSTREG_CHAIN
+    vh_require("cascade.second_level_condition_write_changed_the_status_byte");
+#endif
+#ifdef VH_CUSTREG_CHAIN3
+    vh_require("cascade.third_level_condition_write_changed_the_status_byte");
+#endif
 #endif
     return vh_main(argc, argv, PROP, phases, 4);
 }
